@@ -87,7 +87,7 @@ var (
 	boolFalse = []string{"f", "false", "0", "no", "n"}
 	intVals   = []string{"0", "1", "5", "80", "1000", "-1", "-7", "2147483647", "123456789"}
 	fltVals   = []string{"0", "0.1", "0.5", "1", "0.005", "0.001", "0.25", "0.123456789", "0.000123456789", "0.3333333333333333", "1e-9", "7.000000001"}
-	strVals   = []string{"foo", "main", "a.b", "x|y", "foo bar", "ä", "&=?#%+", "\"q\"", "a,b", "^(x)$", "1kb:", "k=v", "<b>"}
+	strVals   = []string{"true", "false", "t", "f", "0", "-1", "foo", "main", "a.b", "x|y", "foo bar", "ä", "&=?#%+", "\"q\"", "a,b", "^(x)$", "1kb:", "k=v", "<b>"}
 	unitVals  = []string{"auto", "ms", "kb", "seconds", "minimum", "bytes"}
 	cfgNames  = []string{"a", "b", "my cfg", "ünï", "<x>&"}
 )
